@@ -2,6 +2,7 @@
 
 Nothing here executes analysed code; it only indexes the exported MIR.
 """
+import copy
 import json
 import os
 import re
@@ -274,6 +275,111 @@ def _apply_field_renames(js, ren):
         walk(j["fns"])
 
 
+def _regrouped_fields(adts):
+    """Private fields that were moved, unchanged, into a new private struct held by the same owner
+    (`struct RaftCore { a: bool, b: bool }` -> `struct RaftCore { switches: Switches }`, `struct Switches { a, b }`):
+    {(owner adt, holder field name): (new struct adt, {field name: type})}. The owner's vanished fields must all be found,
+    by name and type, in exactly one new struct (absent from the reference table) that the owner holds in a new field."""
+    path = os.path.join(os.path.dirname(os.path.abspath(__file__)), "field_table.json")
+    if not os.path.exists(path):
+        return {}
+    ref = json.load(open(path))
+    out = {}
+    for adt, cols in ref.items():
+        a = adts.get(adt)
+        if not a or a.get("kind") != "struct":
+            continue
+        cur = a["variants"][0]["fields"]
+        cur_names = {f["name"] for f in cur}
+        gone = {c[0]: c[1] for c in cols if c[0] not in cur_names and c[2] != "pub"}
+        if not gone:
+            continue
+        for f in cur:
+            if f["name"] in {c[0] for c in cols} or f["vis"] == "pub":
+                continue
+            sa = adts.get(f.get("adt") or f["ty"])
+            if not sa or sa.get("kind") != "struct" or (f.get("adt") or f["ty"]) in ref:
+                continue
+            inner = {g["name"]: g["ty"] for g in sa["variants"][0]["fields"]}
+            moved = {n: t for n, t in gone.items() if inner.get(n) == t}
+            if moved and set(moved) == set(gone) and set(inner) == set(moved):
+                out[(adt, f["name"])] = (f.get("adt") or f["ty"], moved)
+    return out
+
+
+def _apply_regrouping(js, adts, reg):
+    """rewrite `owner.holder.x` to `owner.x`, flatten `Owner { holder: Holder { x, y }, .. }` literals and restore
+    the owner's field list"""
+    if not reg:
+        return
+    by_owner = {}
+    for (owner, holder), (sadt, moved) in reg.items():
+        by_owner[owner] = (holder, sadt, moved)
+
+    def fix_place(pl):
+        p = pl.get("p")
+        if not isinstance(p, list):
+            return
+        i = 0
+        out = []
+        while i < len(p):
+            a_ = p[i]
+            if isinstance(a_, dict) and "f" in a_ and a_.get("adt") in by_owner and a_.get("n") == by_owner[a_["adt"]][0] and i + 1 < len(p) and isinstance(p[i + 1], dict) and p[i + 1].get("adt") == by_owner[a_["adt"]][1]:
+                b_ = dict(p[i + 1])
+                b_["adt"] = a_["adt"]
+                out.append(b_)
+                i += 2
+                continue
+            out.append(a_)
+            i += 1
+        pl["p"] = out
+
+    def walk(o):
+        if isinstance(o, dict):
+            if "l" in o and "p" in o and isinstance(o.get("p"), list):
+                fix_place(o)
+            for v in o.values():
+                walk(v)
+        elif isinstance(o, list):
+            for v in o:
+                walk(v)
+
+    for j in js:
+        if j["crate"] != "raft":
+            continue
+        for k, f in j["fns"].items():
+            B = f["body"]["blocks"]
+            walk(B)
+            # flatten struct literals
+            aggdef = {}
+            for b in B:
+                for st in b["stmts"]:
+                    if st["k"] == "assign" and not st["place"]["p"] and st["rv"].get("agg") == "adt":
+                        aggdef.setdefault(st["place"]["l"], []).append(st["rv"])
+            for b in B:
+                for st in b["stmts"]:
+                    rv = st.get("rv", {})
+                    if st["k"] == "assign" and rv.get("agg") == "adt" and rv.get("adt") in by_owner and by_owner[rv["adt"]][0] in rv.get("fields", []):
+                        holder, sadt, moved = by_owner[rv["adt"]]
+                        i = rv["fields"].index(holder)
+                        op = rv["ops"][i]
+                        src = op.get("move") or op.get("copy")
+                        if src is not None and not src["p"] and len(aggdef.get(src["l"], [])) == 1 and aggdef[src["l"]][0].get("adt") == sadt:
+                            inner = aggdef[src["l"]][0]
+                            rv["fields"] = rv["fields"][:i] + list(inner["fields"]) + rv["fields"][i + 1:]
+                            rv["ops"] = rv["ops"][:i] + copy.deepcopy(inner["ops"]) + rv["ops"][i + 1:]
+    for owner, (holder, sadt, moved) in by_owner.items():
+        flds = adts[owner]["variants"][0]["fields"]
+        if not [n for n, f in enumerate(flds) if f["name"] == holder]:
+            continue
+        i = [n for n, f in enumerate(flds) if f["name"] == holder][0]
+        inner = adts[sadt]["variants"][0]["fields"]
+        adts[owner]["variants"][0]["fields"] = flds[:i] + [dict(g) for g in inner] + flds[i + 1:]
+        for jj in js:
+            if owner in jj.get("adts", {}):
+                jj["adts"][owner] = adts[owner]
+
+
 def load_dir(d):
     facts = Facts()
     names = sorted(n for n in os.listdir(d) if n.endswith(".json"))
@@ -284,17 +390,23 @@ def load_dir(d):
     adts = {}
     for j in js:
         adts.update(j["adts"])
+    reg = _regrouped_fields(adts)
+    _apply_regrouping(js, adts, reg)
     ren = _field_renames(adts)
     if ren:
         _apply_field_renames(js, ren)
     from .inline import inline_new_helpers, fn_renames, apply_fn_renames
-    from .inline import changed_fns, split_selector_joins, fold_constant_switches, set_enums, propagate_moves, desugar_mem_replace
+    from .inline import changed_fns, split_selector_joins, fold_constant_switches, set_enums, propagate_moves, desugar_mem_replace, desugar_combinators
     set_enums(adts)
     fren = fn_renames(js)
     apply_fn_renames(js, fren)
     changed = changed_fns(js)
     inlined = inline_new_helpers(js)
     split = {}
+    allfns = {}
+    for j in js:
+        if j["crate"] == "raft":
+            allfns.update(j["fns"])
     for j in js:
         if j["crate"] != "raft":
             continue
@@ -302,10 +414,33 @@ def load_dir(d):
             if k in changed or f.get("root") in changed:
                 desugar_mem_replace(f)
                 propagate_moves(f)
+                desugar_combinators(f, allfns)
+                propagate_moves(f)
                 fold_constant_switches(f)
                 n = split_selector_joins(f)
                 if n:
                     split[k] = n
+    _apply_regrouping(js, adts, reg)   # again: struct literals whose holder value only now is a literal in the same body
+    # a closure spliced into its (only) user is no longer a unit of analysis
+    from . import inline as _inl
+    if _inl.SPLICED_CLOSURES:
+        used = set()
+
+        def _walk(o):
+            if isinstance(o, dict):
+                if o.get("agg") == "closure" and o.get("closure") in _inl.SPLICED_CLOSURES:
+                    used.add(o["closure"])
+                for v in o.values():
+                    _walk(v)
+            elif isinstance(o, list):
+                for v in o:
+                    _walk(v)
+        for j in js:
+            if j["crate"] == "raft":
+                for k in list(j["fns"].keys()):
+                    if k in _inl.SPLICED_CLOSURES:
+                        j["fns"].pop(k)
+        _inl.SPLICED_CLOSURES.clear()
     for j in js:
         facts.load_json(j)
     facts.inlined_helpers = inlined
